@@ -269,6 +269,27 @@ def run(ctx):
                   "the result '%s' divides before it multiplies/adds: the truncated remainder is lost, so 'N%%' of a total that is not a multiple of the "
                   "divisor is up to N bytes-per-cent too low (thresholds no longer act at the configured value)" % pp.text(pp.nodes[i]["r"])[:80])
     init_results_checked(ctx, "C12")
+    # ------------------------------------------------ (iv-a) one destination, one argument name: PluginArgParser::parse fills values in the
+    # iteration order of an unordered_map, so two names bound to the same member make the result depend on the hash order
+    n_dest = 0
+    for f in sorted(P.fns.values(), key=lambda x: (x.file, x.line)):
+        regs = [i for i in f.calls("PluginArgParser::addArgument", "PluginArgParser::addArgumentCustom") if len(f.nodes[i].get("args", [])) >= 2]
+        if not regs:
+            continue
+        by_dest = {}
+        for i in regs:
+            a = f.nodes[i]["args"]
+            by_dest.setdefault(f.text(a[1]), []).append((f.text(a[0]), i))
+        for dest, lst in by_dest.items():
+            n_dest += 1
+            names = sorted({nm for nm, _ in lst})
+            if len(lst) > 1:
+                ctx.violation("one-name-per-destination:%s:%s" % (short(f), dest), "table (argument name -> destination)", f.loc(lst[1][1]),
+                              "%s is the destination of %d registrations (%s): when both names are given the stored value is whichever the unordered "
+                              "argument map yields last, not the documented one" % (dest, len(lst), ", ".join(names)))
+    ctx.counters["argument_destinations"] = n_dest
+    ctx.floor("argument_destinations", 40, "distinct (init, destination) pairs registered with PluginArgParser")
+    ctx.ok("one-name-per-destination", "table (argument name -> destination)", "-", "%d destinations, each registered once" % n_dest)
     # ------------------------------------------------ (iv) parser / destination agreement
     n_reg = 0
     for f in P.fns.values():
@@ -290,6 +311,14 @@ def run(ctx):
                         ret_t = P.fns[u].d.get("ret")
                     if ret_t is None and "parseValue" in m.get("qname", ""):
                         ret_t = dest_t        # parseValue<T>: same type by construction
+                elif m["k"] == "ref" and m.get("dk") == "local" and ret_t is None:
+                    # a local that holds the parser closure
+                    init_, v_ = local_init(f, m["name"], must=False)
+                    if v_ is not None and init_ is not None and init_ >= 0:
+                        for y in f.walk(init_):
+                            if f.nodes[y]["k"] == "lambda":
+                                for u in P.resolve(f.nodes[y]["lusr"]):
+                                    ret_t = P.fns[u].d.get("ret")
             ctx.use(f)
             owner = f
             inst = "parser-dest:%s:%s" % (short(owner), f.text(n["args"][0])[:40].strip('"'))
